@@ -27,8 +27,8 @@ func TestMakeSeeds(t *testing.T) {
 	}
 	_ = os.MkdirAll(dir, 0o755)
 
-	// a contract holding 19 units destroys itself in favour of its caller: the caller is credited and
-	// the contract's balance record stays
+	// a contract holding 19 units destroys itself in favour of its caller: the caller was credited and
+	// the contract's balance record stayed (repaired in /repo by 1c9f63d; regression input that must pass)
 	{
 		p := sim.DefaultParams()
 		p.Seed = "seed-selfdestruct"
@@ -53,10 +53,11 @@ func TestMakeSeeds(t *testing.T) {
 		c := ethcrypto.CreateAddress(e.Addr, 0)
 		block([][]string{{"olvm-call"}}, txgen.OLVM(e, txgen.OLVMArgs{ChainID: p.ChainID, Nonce: 1, To: &c, Data: make([]byte, 32), Fee: fee}))
 		block(nil)
-		write(t, dir, "kf-olvm-selfdestruct-keeps-balance.json", "value-created", "C02/value-created/OLT/OLVM/selfdestruct", tr)
+		write(t, dir, "fixed-olvm-selfdestruct-keeps-balance.json", "value-created", "C02/value-created/OLT/OLVM/selfdestruct", tr)
 	}
 
-	// PROPOSAL_WITHDRAW_FUNDS with a negative amount: the escrow grows and the named beneficiary is debited
+	// PROPOSAL_WITHDRAW_FUNDS with a negative amount: the escrow grew and the named beneficiary was debited
+	// (repaired in /repo by d01f7bb; regression input that must pass)
 	{
 		p := sim.DefaultParams()
 		p.Seed = "seed-withdraw-funds-negative"
@@ -87,7 +88,23 @@ func TestMakeSeeds(t *testing.T) {
 		neg := new(big.Int).Neg(new(big.Int).Lsh(big.NewInt(1), 200))
 		block([][]string{{"amt-neg-huge", "addr-user", "cur-ok"}}, txgen.ProposalWithdrawFunds(u[0], id, u[0].Addr, u[1].Addr, txgen.Amt("OLT", neg), fee, "m2"))
 		block(nil)
-		write(t, dir, "kf-withdraw-funds-negative.json", "negative-amount", "C02/negative-amount/balance/PROPOSAL_WITHDRAW_FUNDS/amt-neg", tr)
+		write(t, dir, "fixed-withdraw-funds-negative.json", "negative-amount", "C02/negative-amount/balance/PROPOSAL_WITHDRAW_FUNDS/amt-neg", tr)
+	}
+
+	// WITHDRAW_REWARD with a negative amount: the validator's "withdrawn" total is stored negative
+	{
+		p := sim.DefaultParams()
+		p.Seed = "seed-withdraw-reward-negative"
+		g := sim.BuildGenesis(p)
+		v := g.U.Vals[0]
+		tr := &hist.Trace{Params: p, Roles: hist.Roles(p, 1), Profile: "hand:withdraw-reward-negative"}
+		tx := txgen.WithdrawReward(v.Key.Addr, v.Stake.Addr, txgen.Amt("OLT", big.NewInt(-3)), txgen.DefaultFee(), "m1", v.Stake)
+		tx.Tags = []string{"amt-neg", "cur-ok"}
+		empty := sim.BlockSpec{GapSecs: 5}
+		tr.Steps = append(tr.Steps, hist.BlockStep(empty, nil))
+		tr.Steps = append(tr.Steps, hist.BlockStep(sim.BlockSpec{GapSecs: 5, Txs: [][]byte{tx.Bytes}}, []txgen.Tx{tx}))
+		tr.Steps = append(tr.Steps, hist.BlockStep(empty, nil))
+		write(t, dir, "kf-withdraw-reward-negative.json", "negative-amount", "C02/negative-amount/validator-reward-record/WITHDRAW_REWARD/amt-neg", tr)
 	}
 }
 
